@@ -127,6 +127,20 @@ def run(ctx):
                 if kind == "Affine":
                     kw.append(["bias", gen.arr(rng, sh[:-2] + sh[-2:-1] if rank >= 2 else [1], "<f8")])
                 one({"type": kind, "kwargs": kw}, rank >= 2, f"{kind}_rank{rank}", {"site": kind, "rank": rank})
+        if kind == "Affine":
+            # the verdict on the weight's rank does not depend on what the bias looks like: ranks 0 and 1 with every
+            # bias form (0-d array, numpy scalar, Python float, vectors of either plausible length)
+            import struct
+            for rank in (0, 1):
+                for bform in ("0d", "npscalar", "pyfloat", "vec1", "vecN"):
+                    sh = [rng.randrange(2, 5)] * rank
+                    bias = {"0d": gen.arr(rng, [], "<f8"),
+                            "npscalar": {"n": "<f8", "x": struct.pack("<d", 0.25).hex()},
+                            "pyfloat": gen.pyfloat(0.5),
+                            "vec1": gen.arr(rng, [1], "<f8"),
+                            "vecN": gen.arr(rng, sh or [2], "<f8")}[bform]
+                    one({"type": kind, "kwargs": [["weight", gen.arr(rng, sh, "<f8")], ["bias", bias]]}, False,
+                        f"Affine_rank{rank}_bias_{bform}", {"site": kind, "rank": rank, "bias": bform})
     # padding strings
     strings = ["same", "valid", "Same", "VALID", "same ", " valid", "", "full", "SAME", "none", "0", "s", "sam",
                "valid\n", "samе", "reflect", "circular", "zeros", "Valid", "v", "same\t", "val id", "same,valid"]
